@@ -121,7 +121,10 @@ impl StrategyPlanner {
         let (action, source_checksum, dest_checksum) = if source.is_dir {
             // For directories, just check existence (no metadata needed)
             let exists = transport.exists(&dest_path).await.unwrap_or(false);
-            let action = if exists {
+            // A symlink in the directory's place (the source entry used to be a link) has to be
+            // replaced by a real directory: its children must not be written through it
+            let is_link = matches!(std::fs::symlink_metadata(&dest_path), Ok(ref m) if m.file_type().is_symlink());
+            let action = if exists && !is_link {
                 SyncAction::Skip
             } else {
                 SyncAction::Create
